@@ -1,3 +1,3 @@
 package ref
 
-const verifBoundName = 8
+const verifBoundName = 7
